@@ -225,7 +225,11 @@ Next ==
             /\ pc' = [amp |-> IF ev.cfg.ptype = "stable" THEN ev.cfg.amp ELSE Zero, dec |-> ev.cfg.dec]
        ELSE LET t == StOf(st.ptype, ev.obs) IN
             /\ Report(ev, Failed(EvChecks(ev, t)))
-            /\ st' = t
+            \* the specification resynchronises on what it observes - except for the configured fees, which it owns: the
+            \* triple in force is the one the last accepted update SET, whatever the contract stored (a stale share kept
+            \* by an update would otherwise be taken for the configuration and every charge judged against it)
+            /\ st' = [t EXCEPT !.fees = IF ev.ev = "setfees" /\ ev.res = "ok"
+                                        THEN [p |-> ev.args.p, s |-> ev.args.s, b |-> ev.args.b] ELSE st.fees]
             /\ last' = IF ev.ev = "provide" /\ ev.res = "ok"
                        THEN [ev |-> "provide", actor |-> ev.actor, recv |-> ev.args.recv, d |-> ev.args.d,
                              minted |-> ev.out.minted, preS |-> st.S, preBal |-> st.bal]
